@@ -777,8 +777,10 @@ fn walk_parent(f: &[Vec<u8>]) -> R {
             Some(format!("ABORT exit {:?} in {} {}", cr.exit, at, tail))
         } else { None };
         let is_timeout = terminal.as_ref().map(|t| t.starts_with("TIMEOUT")).unwrap_or(false);
-        // a time-out counts only if it is reproduced three times (a dead-lock after a panic is a consequence of the panic)
-        if is_timeout && attempts < 3 && p.panic == 0 { continue; }
+        // a time-out counts only if it is reproduced: three times for the wall clock (it depends on the load of the machine),
+        // twice for the CPU limit (CPU seconds do not) — a dead-lock after a panic is a consequence of the panic and is not retried
+        let is_cpu = terminal.as_ref().map(|t| t.starts_with("TIMEOUT cpu")).unwrap_or(false);
+        if is_timeout && attempts < (if is_cpu { 2 } else { 3 }) && p.panic == 0 { continue; }
         break (cr, p, terminal);
     };
     let _ = cr;
